@@ -207,6 +207,7 @@ class ActorSim:
         self.threads = []
         self.seq = 0
         self.addr_counter = 0
+        self.role_counts = {}
         self.back = threading.Semaphore(0)
         self.current_thread = None
         self.current_actor = None
@@ -220,6 +221,10 @@ class ActorSim:
         self.phase = "main"
         self.faults = []  # environment transitions supplied by a check: callables(sim) -> bool (enabled?) with .fire(sim)
         self.stopped = False
+        self.untimed = False
+        self.ignore_timers = False
+        self.on_deliver = None
+        self.state_fn = None  # canonical state for explicit-state search (see explore.StatefulChooser)
 
     # ---------------------------------------------------------------- actors
     def offset_of(self, k):
@@ -228,7 +233,10 @@ class ActorSim:
 
     def create_actor(self, cls, parent=None, requirements=None, process=None):
         self.addr_counter += 1
-        addr = ta.ActorAddress(f"{cls.__name__}-{self.addr_counter}")
+        # names do not depend on the order in which actors for different hosts are created (symmetry reduction for state hashing)
+        role = f"{cls.__name__}@{(requirements or {}).get('ip', 'c')}"
+        n = self.role_counts[role] = self.role_counts.get(role, 0) + 1
+        addr = ta.ActorAddress(f"{role}#{n}")
         if process is None:
             if self.place is not None:
                 process = self.place(cls, requirements, parent)
@@ -285,6 +293,8 @@ class ActorSim:
 
     # ---------------------------------------------------------------- delivery
     def deliver(self, sender_key, receiver_key, msg):
+        if self.on_deliver is not None:
+            self.on_deliver(self, receiver_key, msg)
         rec = self.actors.get(receiver_key)
         if rec is None or not rec.alive:
             self.dead_letters.append((receiver_key, type(msg).__name__))
@@ -387,10 +397,14 @@ class ActorSim:
         for t in self.threads:
             if t.state in ("new", "waiting") and t.runnable():
                 out.append(("thread", t))
-        due = sorted((x for x in self.timers if x[0] <= CLOCK.now + 1e-12), key=lambda x: (x[0], x[1]))
+        if self.untimed:
+            # explicit-state mode: a timer may fire at any moment, time itself is not part of the state
+            due = [] if self.ignore_timers else sorted(self.timers, key=lambda x: (x[0], x[1]))
+        else:
+            due = sorted((x for x in self.timers if x[0] <= CLOCK.now + 1e-12), key=lambda x: (x[0], x[1]))
         for x in due:
             out.append(("timer", x))
-        nxt = self.next_deadline()
+        nxt = None if self.untimed else self.next_deadline()
         if nxt is not None:
             out.append(("time", nxt))
         for f in self.faults:
@@ -408,12 +422,14 @@ class ActorSim:
         en = self.enabled()
         if not en:
             return False
+        if self.state_fn is not None and hasattr(self.ch, "visit") and len(self.ch.choices) >= len(self.ch.prefix):
+            self.ch.visit(self.state_fn(self))
         # time advance is the default only when nothing else is enabled; faults are never default
-        normal = [e for e in en if e[0] not in ("time", "fault")]
+        normal = [e for e in en if e[0] not in ("time", "fault") or (e[0] == "fault" and e[1].mandatory)]
         if normal:
-            order = normal + [e for e in en if e[0] == "time"] + [e for e in en if e[0] == "fault"]
+            order = normal + [e for e in en if e[0] == "time"] + [e for e in en if e[0] == "fault" and not e[1].mandatory]
         else:
-            order = [e for e in en if e[0] == "time"] + [e for e in en if e[0] == "fault"]
+            order = [e for e in en if e[0] == "time"] + [e for e in en if e[0] == "fault" and not e[1].mandatory]
         if not order:
             return False
         if not normal and not any(e[0] == "time" for e in order):
@@ -477,7 +493,8 @@ class ActorSim:
 
 
 class Fault:
-    def __init__(self, name, enabled, fire, once=True):
+    def __init__(self, name, enabled, fire, once=True, mandatory=False):
+        self.mandatory = mandatory  # an environment transition that is bound to happen (not an optional fault)
         self.name = name
         self._enabled = enabled
         self._fire = fire
